@@ -20,13 +20,18 @@ SOURCE_EXT = re.compile(
 SANITIZER = re.compile(
     r"(::min$|::clamp$|::checked_\w+$|::try_from$|::try_into$|::get$|::get_mut$|::get_unchecked|::position$|::find\w*$|"
     r"::len$|::is_empty$|::capacity$|::count$|::rem_euclid$|::saturating_sub$|::wrapping_\w+$|::overflowing_\w+$|::first$|::last$|"
-    r"::iter$|::into_iter$|::as_ptr$|::to_string$|::fmt$|::leading_zeros$|::trailing_zeros$|::count_ones$)"
+    r"::as_ptr$|::to_string$|::fmt$|::leading_zeros$|::trailing_zeros$|::count_ones$)"
 )
 CMP_CALL = re.compile(r"(PartialOrd(<[^>]*>)?>?::(lt|le|gt|ge|partial_cmp)$|Ord>?::cmp$|::cmp$|::partial_cmp$)")
 SINK_CALL = re.compile(
     r"(::split_at(_mut)?$|::split_off$|::drain$|::copy_within$|alloc::vec::Vec::<T, A>::(remove|swap_remove|insert|truncate_front)$|"
     r"::split_to$|::advance$|::split_at_unchecked$|::split_first_chunk|::split_last_chunk)"
 )
+CHECKED_ACCESS = re.compile(r"(::get$|::get_mut$|::split_at_checked$|::split_at_mut_checked$|::checked_(add|sub|mul)$|::split_at_pos$)")
+TRY_PASS = re.compile(r"(Try>?::branch$|::map_err$|::ok_or$|::ok_or_else$|::ok$)")
+CONTAINER_WRITE = re.compile(r"::(push|push_back|push_front|insert|extend|extend_from_slice|append|entry|or_insert\w*)$")
+# allocation sized by a decoded integer: capacity overflow panics, huge sizes abort the process
+ALLOC_CALL = re.compile(r"(::with_capacity$|::with_capacity_in$|::reserve$|::reserve_exact$|alloc::vec::Vec::<T, A>::resize$|::from_elem$|::resize_with$)")
 INDEX_CALL = re.compile(r"ops::index::Index(Mut)?(<[^>]*>)?>?::index(_mut)?$")
 ORD_OPS = {"Lt", "Le", "Gt", "Ge"}
 NO_TAINT_BIN = {"Lt", "Le", "Gt", "Ge", "Eq", "Ne", "Rem", "BitAnd", "Cmp"}
@@ -44,17 +49,30 @@ def carries_int(ty):
     return not NO_INT_TY.match(ty)
 
 
+_INT_TOKEN = re.compile(r"(?<![\w:])(u16|u32|u64|u128|usize|i16|i32|i64|i128|isize)(?![\w:])")
+
+
+def param_carries_int(ty, is_closure_env=False):
+    """parameters seed taint labels only if an integer type is visible in their type (integers, tuples/Option/Result of
+    integers, ranges); whole structs handed around by reference are not followed across calls (field-insensitive taint on
+    them produced only false alarms), closure environments are tracked per captured variable instead"""
+    if is_closure_env:
+        return True
+    return bool(_INT_TOKEN.search(ty)) and not NO_INT_TY.match(ty)
+
+
 class Summary:
-    __slots__ = ("ret_src", "ret_params", "param_sinks", "own_findings")
+    __slots__ = ("ret_src", "ret_params", "param_sinks", "own_findings", "ret_fields")
 
     def __init__(self):
         self.ret_src = False          # returns a value derived from an unbounded source
         self.ret_params = set()       # params whose taint reaches the return value unbounded
         self.param_sinks = {}         # param idx -> description of the sink it reaches unbounded
         self.own_findings = []
+        self.ret_fields = None        # (wrap depth, {tuple field: tainted?}) when the result is a (wrapped) tuple built in the function
 
     def key(self):
-        return (self.ret_src, frozenset(self.ret_params), frozenset(self.param_sinks))
+        return (self.ret_src, frozenset(self.ret_params), frozenset(self.param_sinks), str(self.ret_fields))
 
 
 def assert_extra(t):
@@ -64,7 +82,7 @@ def assert_extra(t):
 
 
 class URC:
-    def __init__(self, db, scope_fns, extra_sources=None, ignore_sources=None):
+    def __init__(self, db, scope_fns, extra_sources=None, ignore_sources=None, alloc_sinks=False):
         self.db = db
         self.scope = {f.key: f for f in scope_fns}
         self.byname = {}
@@ -72,6 +90,7 @@ class URC:
             self.byname.setdefault(f.name, f)
         self.extra_sources = extra_sources
         self.ignore_sources = ignore_sources
+        self.alloc_sinks = alloc_sinks
         self.summ = {k: Summary() for k in self.scope}
         self.stats = defaultdict(int)
 
@@ -102,16 +121,64 @@ class URC:
         taint = defaultdict(set)        # local -> set(root)
         carr = [carries_int(t) for t in fn.locals]
         for i in range(1, fn.argc + 1):
-            if carr[i]:
+            if carr[i] and param_carries_int(fn.locals[i], fn.kind == "closure" and i == 1):
                 taint[i].add(("param", i))
         calls = fn.calls()
         reach = fn.reachable_blocks()
 
+        is_closure = fn.kind == "closure"
+
         def op_taint(op):
             if "p" in op:
-                return taint.get(op["p"][0], set())
+                p = op["p"]
+                if is_closure and p[0] == 1:
+                    # captured variables are tracked per upvar: `(*_1).k`
+                    flds = [x for x in p[1:] if isinstance(x, str) and x.startswith(".")]
+                    if flds:
+                        return {("param", (1, flds[0]))}
+                if p[0] in ftaint:
+                    sel = ftaint_select(p)
+                    if sel is not None and sel[0] == "field":
+                        return set(sel[1]) | taint.get(p[0], set())
+                    depth, fields = ftaint[p[0]]
+                    return set().union(*fields.values()) | taint.get(p[0], set()) if fields else taint.get(p[0], set())
+                return taint.get(p[0], set())
             return set()
 
+        # field-sensitive results of callees that return (wrapped) tuples: local -> (wrap depth, {field index: roots})
+        ftaint = {}
+
+        def ftaint_select(p):
+            """('field', roots) when the place selects one tuple field, ('tuple', depth0-map) when it selects the whole tuple, None otherwise"""
+            depth, fields = ftaint[p[0]]
+            proj = [x for x in p[1:] if x != "*"]
+            if depth == 1:
+                if len(proj) >= 2 and proj[0].startswith("as ") and proj[1] == ".0":
+                    proj = proj[2:]
+                elif not proj:
+                    return ("wrapped", fields)
+                else:
+                    return None
+            if not proj:
+                return ("tuple", fields)
+            if proj[0].startswith(".") and proj[0][1:].isdigit():
+                return ("field", fields.get(int(proj[0][1:]), set()))
+            return None
+
+        # temps holding `&mut X`: calls that receive them may write X
+        mut_borrow = {}
+        for bi in reach:
+            for s in fn.stmts(bi):
+                if s[0] == "a" and s[2][0] == "ref" and s[2][1] == "mut" and len(s[1]) == 1:
+                    mut_borrow[s[1][0]] = s[2][2][0]
+
+        closure_of = {}     # local -> name of the closure / fn item it holds
+        for bi in reach:
+            for s in fn.stmts(bi):
+                if s[0] == "a" and len(s[1]) == 1 and s[2][0] == "agg" and s[2][1] == "closure":
+                    closure_of[s[1][0]] = s[2][2]
+                elif s[0] == "a" and len(s[1]) == 1 and s[2][0] == "use" and "p" not in s[2][1] and (s[2][1].get("fn") or s[2][1].get("closure")):
+                    closure_of[s[1][0]] = s[2][1].get("fn") or s[2][1].get("closure")
         src_desc = {}
         changed = True
         it = 0
@@ -125,6 +192,14 @@ class URC:
                     pl, rv = s[1], s[2]
                     k = rv[0]
                     add = set()
+                    if k == "use" and "p" in rv[1] and rv[1]["p"][0] in ftaint and len(pl) == 1:
+                        sel = ftaint_select(rv[1]["p"])
+                        if sel is not None and sel[0] in ("tuple", "wrapped"):
+                            new = (0 if sel[0] == "tuple" else 1, sel[1])
+                            if ftaint.get(pl[0]) != new:
+                                ftaint[pl[0]] = new
+                                changed = True
+                            continue
                     if k in ("use", "cast", "repeat", "un"):
                         for op in rvalue_operands(rv):
                             add |= op_taint(op)
@@ -135,7 +210,7 @@ class URC:
                         for op in rv[4]:
                             add |= op_taint(op)
                     elif k in ("ref", "rawptr"):
-                        add |= taint.get(rv[2][0], set())
+                        add |= op_taint({"p": rv[2]})
                     if add and carr[pl[0]] and not add <= taint[pl[0]]:
                         taint[pl[0]] |= add
                         changed = True
@@ -156,15 +231,48 @@ class URC:
                     if summ.ret_src:
                         r = ("src", c.block)
                         src_desc[r] = nm
-                        add.add(r)
+                        if summ.ret_fields is not None:
+                            new = (summ.ret_fields[0], {k_: ({r} if t_ else set()) for k_, t_ in summ.ret_fields[1].items()})
+                            if ftaint.get(c.dest[0]) != new:
+                                ftaint[c.dest[0]] = new
+                                changed = True
+                        else:
+                            add.add(r)
                     for i in summ.ret_params:
-                        if i - 1 < len(c.args):
+                        if isinstance(i, int) and i - 1 < len(c.args):
                             add |= op_taint(c.args[i - 1])
+                elif TRY_PASS.search(nm) and c.args and "p" in c.args[0] and c.args[0]["p"][0] in ftaint and len(c.args[0]["p"]) == 1:
+                    # `?` and error adaptors keep the Ok payload: the field map survives, one level wrapped
+                    depth, fields = ftaint[c.args[0]["p"][0]]
+                    new = (1, fields)
+                    if ftaint.get(c.dest[0]) != new:
+                        ftaint[c.dest[0]] = new
+                        changed = True
                 elif SANITIZER.search(nm) or SANITIZER.search(c.path) or CMP_CALL.search(c.path):
                     pass
                 else:
                     for a in c.args:
                         add |= op_taint(a)
+                        # higher-order adaptors (map, and_then, map_or, then, unwrap_or_else ...): what the closure returns
+                        # flows into the result
+                        cn = a.get("closure") or a.get("fn") or (closure_of.get(a["p"][0]) if "p" in a and len(a["p"]) == 1 else None)
+                        if cn and cn in self.byname and self.summ[self.byname[cn].key].ret_src:
+                            r = ("src", c.block)
+                            src_desc[r] = cn
+                            add.add(r)
+                    # container writes: `vec.push(tainted)`, `map.insert(k, tainted)`, `extend`, ...
+                    if c.args and "p" in c.args[0] and c.args[0]["p"][0] in mut_borrow and CONTAINER_WRITE.search(nm):
+                        w = set()
+                        for a in c.args[1:]:
+                            w |= op_taint(a)
+                        base = mut_borrow[c.args[0]["p"][0]]
+                        seen_b = set()
+                        while base in mut_borrow and base not in seen_b:
+                            seen_b.add(base)
+                            base = mut_borrow[base]
+                        if w and carr[base] and not w <= taint[base]:
+                            taint[base] |= w
+                            changed = True
                 if add and carr[c.dest[0]] and not add <= taint[c.dest[0]]:
                     taint[c.dest[0]] |= add
                     changed = True
@@ -180,6 +288,13 @@ class URC:
                     if r:
                         guards.append((bi, False, r))
         for c in calls:
+            # a checked access with the value (`data.get(..n)`, `split_at_checked(n)`, `checked_*`) is the bound test itself
+            if c.block in reach and CHECKED_ACCESS.search(c.name):
+                r = set()
+                for a in c.args[1:]:
+                    r |= op_taint(a)
+                if r:
+                    guards.append((c.block, True, r))
             if c.block in reach and (CMP_CALL.search(c.path) or CMP_CALL.search(c.name)):
                 if any(m.startswith("debug_assert") for m in c.macros):
                     continue
@@ -227,6 +342,13 @@ class URC:
                 roots = op_taint(c.args[1])
                 if roots:
                     sink(c.block, roots, "Index::index", c.line)
+            elif self.alloc_sinks and (ALLOC_CALL.search(c.name) or ALLOC_CALL.search(c.path)) and c.args:
+                a = c.args[0] if re.search(r"::with_capacity(_in)?$", c.name) else (c.args[1] if len(c.args) > 1 else None)
+                if c.name.endswith("::from_elem") and len(c.args) > 1:
+                    a = c.args[1]
+                roots = op_taint(a) if a is not None else set()
+                if roots:
+                    sink(c.block, roots, "alloc " + short(c.name), c.line)
             elif SINK_CALL.search(c.path) or SINK_CALL.search(c.name):
                 roots = set()
                 for a in c.args[1:]:
@@ -237,10 +359,20 @@ class URC:
                 summ, callee = self.callee_summary(c)
                 if summ is not None and summ.param_sinks:
                     for i, desc in summ.param_sinks.items():
-                        if i - 1 < len(c.args):
+                        if isinstance(i, int) and i - 1 < len(c.args):
                             roots = op_taint(c.args[i - 1])
                             if roots:
                                 sink(c.block, roots, "arg%d of %s -> %s" % (i, short(callee.name), desc.split(" in ")[0]), c.line)
+        # closures: a captured value that reaches a sink inside the closure body is a sink where the closure is built
+        for bi in reach:
+            for s in fn.stmts(bi):
+                if s[0] == "a" and s[2][0] == "agg" and s[2][1] == "closure" and s[2][2] in self.byname:
+                    cs = self.summ[self.byname[s[2][2]].key]
+                    for i, desc in cs.param_sinks.items():
+                        if isinstance(i, tuple) and i[0] == 1 and i[1][1:].isdigit() and int(i[1][1:]) < len(s[2][4]):
+                            roots = op_taint(s[2][4][int(i[1][1:])])
+                            if roots:
+                                sink(bi, roots, "captured by %s -> %s" % (short(s[2][2]), desc.split(" in ")[0]), s[3])
         # return taint
         ret_src = False
         ret_params = set()
@@ -268,16 +400,60 @@ class URC:
                     if summ.ret_src:
                         roots.add(("src", c.block))
                     for i in summ.ret_params:
-                        if i - 1 < len(c.args):
+                        if isinstance(i, int) and i - 1 < len(c.args):
                             roots |= op_taint(c.args[i - 1])
                 elif not (SANITIZER.search(nm) or SANITIZER.search(c.path) or CMP_CALL.search(c.path)):
                     for a in c.args:
                         roots |= op_taint(a)
+                        cn = a.get("closure") or a.get("fn") or (closure_of.get(a["p"][0]) if "p" in a and len(a["p"]) == 1 else None)
+                        if cn and cn in self.byname and self.summ[self.byname[cn].key].ret_src:
+                            roots.add(("src", c.block))
             for r in unguarded(roots, bi):
                 if r[0] == "param":
                     ret_params.add(r[1])
                 else:
                     ret_src = True
+        # field-sensitive view of (Ok/Some-wrapped) tuple results
+        rf_ok, rf_wrap, rf_fields = True, None, {}
+        defs_all = fn.defs()
+
+        def tuple_of(op, depth=0):
+            if "p" not in op or len(op["p"]) != 1 or depth > 3:
+                return None
+            ds = [d for d in defs_all.get(op["p"][0], []) if d[2] == "a"]
+            if len(ds) != 1 or len(defs_all.get(op["p"][0], [])) != 1:
+                return None
+            rv = ds[0][3][1]
+            if rv[0] == "agg" and rv[1] == "tuple" and rv[4]:
+                return (ds[0][0], rv[4])
+            if rv[0] == "use":
+                return tuple_of(rv[1], depth + 1)
+            return None
+
+        for (bi, si, kind, payload) in (defs_all.get(0, []) if carr[0] else []):
+            if kind == "call":
+                if not re.search(r"FromResidual(<.*>)?>?::from_residual$", payload.name):
+                    rf_ok = False
+                continue
+            pl, rv = payload
+            if len(pl) != 1:
+                rf_ok = False
+                continue
+            if rv[0] == "agg" and rv[1] == "adt" and rv[3] in ("Err", "None"):
+                continue
+            tup, wrap = None, None
+            if rv[0] == "agg" and rv[1] == "adt" and rv[3] in ("Ok", "Some") and len(rv[4]) == 1:
+                tup, wrap = tuple_of(rv[4][0]), 1
+            elif rv[0] == "agg" and rv[1] == "tuple" and rv[4]:
+                tup, wrap = (bi, rv[4]), 0
+            if tup is None or (rf_wrap is not None and rf_wrap != wrap):
+                rf_ok = False
+                continue
+            rf_wrap = wrap
+            for k_, o in enumerate(tup[1]):
+                t_ = any(r[0] != "param" for r in unguarded(op_taint(o), tup[0]))
+                rf_fields[k_] = rf_fields.get(k_, False) or t_
+        S.ret_fields = (rf_wrap, rf_fields) if (rf_ok and rf_wrap is not None and rf_fields) else None
         S.ret_src = S.ret_src or ret_src
         S.ret_params |= ret_params
         S.own_findings = own
